@@ -258,6 +258,10 @@ impl Suite for Prog {
     fn run(&self, lines: &[String]) -> Outcome {
         let mut out = Outcome::default();
         let (prog, rest) = Program::parse(lines);
+        if prog.malformed {
+            out.obs.push("bad-input".into());
+            return out;
+        }
         let mut max_level: Option<u8> = None;
         let mut start: Option<u32> = None;
         for l in &rest {
